@@ -260,10 +260,71 @@ func runC08(c *Ctx) {
 			{Name: "destination fits in 63 bits", Re: `^Int#0\.BitLen\(\) < 63$`},
 			{Name: "destination inside the code", Re: `^Int#0\.Uint64\(\) < len\(\[\]byte#0\)$`},
 			{Name: "destination byte is JUMPDEST (0x5b)", Re: `^\[\]byte#0\[Int#0\.Uint64\(\)\] == 91$`},
-			{Name: "destination is an opcode, not push data", Re: `^(phi:m|.*)\.codeSegment\(Int#0\.Uint64\(\)\)$`},
+			{Name: "destination is an opcode, not push data", Re: `^(` + PH + `|.*)\.codeSegment\(Int#0\.Uint64\(\)\)$`},
 		})
+		// the push-data bitmap is cached per code hash: the key must be the hash of the code that was analysed.
+		// (a) has() fills the cache with codeBitmap(code) under codehash, (b) a contract's (CodeHash, Code) pair is
+		// only ever set as (GetCodeHash(a), GetCode(a)) of one address or (Keccak256Hash(c), c) of one byte string
+		nput := 0
+		for _, b := range has.Blocks {
+			for _, ins := range b.Instrs {
+				if mu, ok := ins.(*ssa.MapUpdate); ok {
+					nput++
+					k := c.termOf(has, mu.Key)
+					// the cached value: directly the call, or a load of a local whose last store in this block is the call
+					val := mu.Value
+					if u, isLoad := val.(*ssa.UnOp); isLoad {
+						for _, prev := range mu.Block().Instrs {
+							if prev == ins {
+								break
+							}
+							if st, isSt := prev.(*ssa.Store); isSt && st.Addr == u.X {
+								val = st.Val
+							}
+						}
+					}
+					okV := false
+					if call, isCall := val.(*ssa.Call); isCall && calleeName(&call.Call) == "vm.codeBitmap" && len(call.Call.Args) == 1 {
+						okV = c.termOf(has, call.Call.Args[0]) == "[]byte#0"
+					}
+					c.Ob("C08-R6", "destinations.has caches codeBitmap(code) under the hash it was given for that code", c.Position(mu.Pos()), k == "Hash#0" && okV, "d["+k+"] = "+c.termOf(has, mu.Value))
+				}
+			}
+		}
+		c.Ob("C08-R6", "destinations.has fills its cache", c.FnPos(has), nput == 1, fmt.Sprintf("%d map updates", nput))
+		setters := map[*ssa.Function][2]int{}
+		if f := c.FnOpt("core/vm:(*Contract).SetCallCode"); f != nil {
+			setters[f] = [2]int{2, 3}
+		}
+		if f := c.FnOpt("core/vm:(*Contract).SetCode"); f != nil {
+			setters[f] = [2]int{1, 2}
+		}
+		npairs := 0
+		for _, caller := range c.SrcFns {
+			for set, idx := range setters {
+				for _, cs := range callSitesOf(caller, set) {
+					npairs++
+					h, cd := c.termOf(caller, cs.Common().Args[idx[0]]), c.termOf(caller, cs.Common().Args[idx[1]])
+					ok := false
+					if strings.HasSuffix(h, ")") {
+						if i := strings.Index(h, ".GetCodeHash("); i > 0 {
+							ok = cd == h[:i]+".GetCode("+h[i+len(".GetCodeHash("):]
+						}
+						if strings.HasPrefix(h, "crypto.Keccak256Hash(") {
+							arg := strings.TrimSuffix(strings.TrimPrefix(h, "crypto.Keccak256Hash("), ")")
+							ok = arg == cd || arg == "["+cd+"]"
+						}
+					}
+					c.Ob("C08-R6", shortFn(caller)+": contract code and code hash are set as a matching pair", c.Position(cs.Pos()), ok, "hash "+h+", code "+cd)
+				}
+			}
+		}
+		c.Ob("C08-R6", "code/hash setter call sites found", "", npairs >= 5, fmt.Sprintf("%d", npairs))
+		for _, fld := range []string{"CodeHash", "Code"} {
+			c.fieldWrittenOnlyIn("C08-R6", "core/vm:Contract."+fld, map[string]bool{"(*core/vm.Contract).SetCallCode": true, "(*core/vm.Contract).SetCode": true, "(*core/vm.Contract).SetCodeOptionalHash": true})
+		}
 	})
-	c.Min("C08-R6", 6)
+	c.Min("C08-R6", 14)
 
 	c.Rule("C08-R9", "operand access: stack operands are converted to machine integers only when guarded, clamped (getDataBig) or sized by memorySize, so offsets >= 2^64 read as zero padding", func() {
 		vmMemoryOperandRule(c, "C08-R9", tabs)
@@ -279,6 +340,7 @@ func runC08(c *Ctx) {
 			n += c08PoolRule(c, fn)
 		}
 		c.Extra["pool_put_operands"] = n
+		c.Extra["push_sites"] = vmPushOwnershipRule(c, "C08-R7")
 	})
 	c.Min("C08-R7", 60)
 }
@@ -721,4 +783,64 @@ func c08Boundaries(c *Ctx) {
 		}
 		c.GlobalNeverReassigned("C08-R5", cs)
 	}
+}
+
+// vmPushOwnershipRule: every integer pushed on the EVM stack is owned by the frame (taken from the integer pool,
+// freshly allocated, or a popped stack item being reused). Pushing a shared integer (a field of the EVM context, a
+// contract field, a protocol constant, a state object's balance) lets a later instruction mutate it in place or
+// recycle it through the pool. Shared between C08-R7 (pool ownership) and C06-R3 (one immutable gas price).
+func vmPushOwnershipRule(c *Ctx, rule string) int {
+	fresh := map[string]string{
+		"intPool.get": "pool", "intPool.getZero": "pool", "big.NewInt": "fresh", "Stack.pop": "popped item reused",
+		"Hash.Big": "fresh (new(big.Int).SetBytes)", "Address.Big": "fresh (new(big.Int).SetBytes)", "math.BigPow": "fresh", "math.Exp": "fresh result (new big.Int)",
+	}
+	n := 0
+	for _, fn := range c.SrcFns {
+		if fn.Pkg == nil || relPkg(fn.Pkg.Pkg.Path()) != "core/vm" {
+			continue
+		}
+		if r := fn.Signature.Recv(); r != nil && strings.HasSuffix(r.Type().String(), "vm.intPool") {
+			continue // the pool keeps its free list in a Stack of its own
+		}
+		tr := newTermRenderer(fn)
+		for _, b := range fn.Blocks {
+			for _, ins := range b.Instrs {
+				call, ok := ins.(*ssa.Call)
+				if !ok || !isVMStackMethod(&call.Call, "push") {
+					continue
+				}
+				n++
+				okAll, why := true, ""
+				seen := map[ssa.Value]bool{}
+				var walk func(v ssa.Value)
+				walk = func(v ssa.Value) {
+					if seen[v] {
+						return
+					}
+					seen[v] = true
+					v = bigRoot(v, 0)
+					switch x := v.(type) {
+					case *ssa.Phi:
+						for _, e := range x.Edges {
+							walk(e)
+						}
+						return
+					case *ssa.Alloc:
+						return
+					case *ssa.Parameter:
+						// helper functions that push a value handed in by an execute function: checked at their call sites
+						return
+					case *ssa.Call:
+						if _, good := fresh[calleeName(&x.Call)]; good {
+							return
+						}
+					}
+					okAll, why = false, tr.term(nil, v, 0)
+				}
+				walk(call.Call.Args[1])
+				c.Ob(rule, shortFn(fn)+": pushed integer is frame-owned (pool, fresh or reused stack item), not a shared one", c.Position(call.Pos()), okAll, "pushes "+tr.term(nil, call.Call.Args[1], 0)+"; shared root: "+why)
+			}
+		}
+	}
+	return n
 }
